@@ -1,11 +1,63 @@
-//! C15 (not built yet)
-use crate::report::{Disagreement, Run};
-use serde_json::Value;
+//! C15 Moving rows or columns is a pure permutation.
+//!
+//! Same workbooks and observers as C12; operations: every block (start 1–5, size 1–3) moved by ±1..±3, plus moves
+//! against the last row/column. Oracle: the permutation of `structural::map_t`; ranges straddling the moved block or
+//! the shifted band are not judged (the statement excludes them).
 
-pub fn run(run: &mut Run) {
-    run.machinery_errors.push("C15: check not built yet".into());
+use crate::report::{Disagreement, Run};
+use crate::structural::{self as st, Axis, SOp, Spec};
+use serde_json::{json, Value};
+
+pub fn ops(thorough: bool, axis: Axis, pair: bool) -> Vec<SOp> {
+    let mut v = vec![];
+    let nmax = if thorough && !pair { 3 } else { 2 };
+    for s in 1..=5 {
+        for n in 1..=nmax {
+            for d in [1i32, -1, 2, -2, 3, -3] {
+                if s + d < 1 {
+                    continue;
+                }
+                if (!thorough && d.abs() == 3 && n == 2) || (pair && d.abs() == 3) {
+                    continue;
+                }
+                v.push(SOp::Move { s, n, d });
+            }
+        }
+    }
+    let last = axis.last();
+    v.push(SOp::Move { s: last - 2, n: 1, d: 2 });
+    v.push(SOp::Move { s: last, n: 1, d: -2 });
+    v.push(SOp::Move { s: last - 6, n: 2, d: 1 });
+    v
 }
 
-pub fn replay(_case: &Value) -> Vec<Disagreement> {
-    vec![]
+pub fn run(run: &mut Run) {
+    let thorough = run.tier.thorough();
+    let specs = st::specs(thorough, true);
+    let f = move |s: &Spec| ops(thorough, s.axis, s.interesting.len() > 1);
+    let (out, errs) = st::run_family(&specs, &f, "C15", true);
+    run.sample(st::case_json("C15", &specs[0], st::Api::Model, &f(&specs[0])[0]));
+    run.sample(st::case_json("C15", &specs[specs.len() / 2], st::Api::User, &f(&specs[specs.len() / 2])[7]));
+    run.sample(st::case_json("C15", &specs[specs.len() - 1], st::Api::User, f(&specs[specs.len() - 1]).last().unwrap()));
+    run.bound = json!({
+        "workbooks": specs.len(),
+        "orientations": ["rows", "columns"],
+        "variants": "3 (variant 1 has a hidden row/column at position 4: UserModel moves across it)",
+        "interesting_contents": st::CONTENTS,
+        "interesting_cells_per_workbook": if thorough { "1 (all variants) and 2 (variant 0, unordered content pairs, block size <= 2, |delta| <= 2)" } else { "1" },
+        "block_start": "1..=5 and against the last row/column",
+        "block_size": if thorough { "1..=3" } else { "1..=2" },
+        "delta": "+-1..+-3",
+        "apis": ["Model", "UserModel"],
+        "hash_seed": crate::env::hash_seed(),
+    });
+    run.rule = "every accepted move (moves that would split an array are refused by the engine and counted); each permutes at least two data cells".into();
+    run.assume("ranges straddling the moved block or the shifted band, and full row/column ranges, are not judged (statement)");
+    run.assume("UserModel lengthens the move when hidden rows/columns lie in the landing zone; the statement does not say by how much, so the effective delta is read from where the block's first cell landed (same direction, up to 3 further) and everything else is judged against that permutation");
+    run.assume("hash-map iteration order fixed by VERIF_HASH_SEED for this run (listed seed only)");
+    st::fill_run(run, out, errs);
+}
+
+pub fn replay(case: &Value) -> Vec<Disagreement> {
+    st::replay_case(case, true)
 }
